@@ -302,6 +302,9 @@ Canonical == /\ root = Canon(AsMap(contents))
              /\ bopen => broot = Canon(AsMap(bcontents))
              /\ root2 = Canon(AsMap(contents2))
 EmptyIsBlankRoot == (Live(contents) = {}) => root = Blank
+\* the root is a function of the contents alone (consequence of Canonical, kept
+\* as a separate named check of "independent of order, batching, pruning")
+OrderIndependent == [][contents' = contents => root' = root]_vars
 PairsAreContents == Pairs(root, <<>>) = {<<k, contents[k]>> : k \in Live(contents)}
 
 \* C04  history is never lost by non-pruning tries
